@@ -4,6 +4,7 @@ import M3d.Model.Svd2
 import M3d.Model.Curves
 import M3d.Model.Search
 import M3d.Model.BiCG
+import M3d.Model.Lsq
 import M3d.Gen.Binomial
 /-!
 Line-protocol handler for C17.  Core-only.
@@ -524,6 +525,37 @@ def handleVec (cd : Codec α) (sqrt : α → α) (ws : List String) : Option Str
       | _ => none
   | _ => none
 
+/-! ### `LeastSquaresReg3` / `LeastSquares3` with `symEigDecomp` as an oracle (faithful model `M3d/Model/Lsq.lean`) -/
+
+def mkRows : Nat → List α → List (V3 α × α)
+  | k + 1, a :: b :: c :: d :: r => (⟨a, b, c⟩, d) :: mkRows k r
+  | _, _ => []
+
+/-- `lsqreg <variant> <n> <ax ay az b>×n <lambda> <epsilon> | <N: 9> <S: 9> <V: 9>`: the model assembles the normal
+equations (`Lsq.normal`: the loop, then `lambda` on the diagonal entries 0, 4, 8); `S, V` are the answer of the REAL
+`symEigDecomp` on the matrix `N` (the function parameter `eig` of `Lsq.lsqReg3`, `lsq_reg3_normal_equations`) - the line is
+rejected if `N` is not the model's normal matrix -; then the eigenvalue floor and `v·s⁺·vᵀ·rightSide` as written. -/
+def handleLsq (cd : Codec α) (ws : List String) : Option String := do
+  match ws with
+  | _variant :: n :: rest =>
+    let n ← n.toNat?
+    let (xs, r) ← takeN cd (4 * n) rest
+    let (le, r) ← takeN cd 2 r
+    match le, r with
+    | [lam, eps], "|" :: r =>
+      let (nm, r) ← takeN cd 9 r
+      let (s, r) ← takeN cd 9 r
+      let (v, _) ← takeN cd 9 r
+      let nr := Lsq.normal (mkRows n xs) lam
+      if nr.1.toList.map cd.show' != nm.map cd.show' then
+        some ("oracle-asked-about-another-matrix: normal matrix is " ++ outNums cd nr.1.toList)
+      else
+        let s ← M3.ofList s; let v ← M3.ofList v
+        let x := Lsq.solveWith s v eps nr.2
+        some (outNums cd [x.x, x.y, x.z])
+    | _, _ => none
+  | _ => none
+
 def handleG (cd : Codec α) (sqrt : α → α) (trunc : α → Int) (exact : Bool) (ws : List String) : Option String :=
   match ws with
   | "m2" :: _ :: op :: rest => do handleM2 cd exact op (← rest.mapM cd.parse)
@@ -549,6 +581,7 @@ def handleG (cd : Codec α) (sqrt : α → α) (trunc : α → Int) (exact : Boo
   | "poly" :: rest => handlePolyG cd exact rest
   | "vec" :: rest => handleVec cd sqrt rest
   | "bicg" :: rest => handleBicg cd sqrt rest
+  | "lsqreg" :: rest => handleLsq cd rest
   | _ => none
 
 end Generic
